@@ -128,6 +128,47 @@ fn p_grp_partial() {
 }
 #[kani::proof]
 #[kani::unwind(14)]
+fn p_obj_ret_tmp_last() {
+    // container = instance, context, THEN temporary storage -- for single-trait objects and for groups alike
+    let x: u64 = kani::any();
+    let ctx = CArc::from(x);
+    let wctx = words(&ctx);
+    let b = CBox::from(Imp { v: x });
+    let wb = words(&b);
+    let obj: TlendBaseArcBox<Imp, u64> = From::from((b, ctx));
+    let n = size_of::<TlendBaseArcBox<Imp, u64>>() / W;
+    assert!(n > 1 + 2 + 3, "C04 this trait has non-empty temporary storage");
+    let w = words(&obj);
+    assert!(w[1] == wb[0] && w[2] == wb[1], "C04 object: instance first");
+    assert!(w[3] == wctx[0] && w[4] == wctx[1] && w[5] == wctx[2], "C04 object: context directly after the instance, temporary storage last");
+    core::mem::forget(obj);
+    let ctx = CArc::from(x);
+    let wctx = words(&ctx);
+    let b = CBox::from(Imp { v: x });
+    let wb = words(&b);
+    let g: GLendBaseArcBox<Imp, u64> = From::from((b, ctx));
+    assert!(size_of::<GLendBaseArcBox<Imp, u64>>() / W == n + 1, "C04 group = one more vtable pointer than the object, same container");
+    let w = words(&g);
+    assert!(w[2] == wb[0] && w[3] == wb[1], "C04 group: instance after the two vtable pointers");
+    assert!(w[4] == wctx[0] && w[5] == wctx[1] && w[6] == wctx[2], "C04 group: context directly after the instance, temporary storage last");
+    core::mem::forget(g);
+    kani::cover!(true, "end");
+}
+#[kani::proof]
+#[kani::unwind(14)]
+fn p_vtbl_assoc_between() {
+    type C = CGlueObjContainer<CBox<'static, Imp>, NoContext, TlendRetTmp<NoContext>>;
+    assert!(size_of::<TlendVtbl<C>>() == 3 * W, "C04 every method keeps its slot when an associated type is declared between methods");
+    let obj = trait_obj!(Imp { v: 7 } as Tlend);
+    assert!(obj.lead() == 7 ^ 21, "C04 the leading method dispatches to the implementor (not to the trait's default body)");
+    assert!(obj.tail() == 7 ^ 22 && obj.lend().q() == 7 ^ 3, "C04 later methods dispatch to the implementor");
+    let vt = obj.get_vtbl();
+    let wv = words(vt);
+    assert!(wv[2] == vt.tail() as usize && wv[0] != wv[2] && wv[0] != 0, "C04 slots in declaration order (the last declared method sits in the last slot)");
+    kani::cover!(true, "end");
+}
+#[kani::proof]
+#[kani::unwind(14)]
 fn p_grp_alias_order() {
     type GA<I> = GAliasContainer<CBox<'static, I>, NoContext>;
     let x: u64 = kani::any();
